@@ -124,8 +124,31 @@ fn run(input: RunInput) -> ScenFuture {
         let mut adv_ok = 0u64;
         let mut closed = false;
         let mut held = Vec::new();
+        let mut held_uni = Vec::new();
+        // close reasons are attacker-chosen bytes too: empty, short, long, multi-byte characters at
+        // every alignment, not UTF-8 at all
+        let odd_reason = |r: &mut rand::rngs::StdRng| -> Vec<u8> {
+            match r.gen_range(0..5) {
+                0 => Vec::new(),
+                1 => b"bye".to_vec(),
+                2 => vec![b'x'; r.gen_range(1..900)],
+                3 => {
+                    const A: &[&str] = &["a", "é", "λ", "中", "🦀", " ", "\u{0}"];
+                    let mut s = String::new();
+                    for _ in 0..r.gen_range(1..200) {
+                        s.push_str(A[r.gen_range(0..A.len())]);
+                    }
+                    s.into_bytes()
+                }
+                _ => {
+                    let mut b = vec![0u8; r.gen_range(1..400)];
+                    r.fill(&mut b[..]);
+                    b
+                }
+            }
+        };
         for _ in 0..n_ops {
-            let kind = r.gen_range(0..18);
+            let kind = r.gen_range(0..19);
             kinds.push(kind);
             let good = good_request(["/echo", "/svc/a", "/p/7"][r.gen_range(0..3)], b"hello-hostile");
             let mut outcome = "-";
@@ -187,11 +210,23 @@ fn run(input: RunInput) -> ScenFuture {
                     }
                 }
                 5 => {
-                    if let Ok(mut tx) = c.open_uni().await {
-                        let mut b = vec![0u8; r.gen_range(0..2000)];
+                    if let Ok(Ok(mut tx)) = tokio::time::timeout(Duration::from_secs(5), c.open_uni()).await {
+                        // anything from nothing to a few bytes (the start of anemo's own 8-byte
+                        // frame, or noise) to kilobytes; finished, reset, or simply left open
+                        let n = if r.gen_bool(0.5) { r.gen_range(0..12) } else { r.gen_range(0..2000) };
+                        let mut b = vec![0u8; n];
                         r.fill(&mut b[..]);
+                        if r.gen_bool(0.4) {
+                            let p = wire::preamble(1);
+                            let k = n.min(p.len());
+                            b[..k].copy_from_slice(&p[..k]);
+                        }
                         let _ = tx.write_all(&b).await;
-                        if r.gen_bool(0.7) { let _ = tx.finish(); } else { let _ = tx.reset(1u32.into()); }
+                        match r.gen_range(0..3) {
+                            0 => { let _ = tx.finish(); }
+                            1 => { let _ = tx.reset(1u32.into()); }
+                            _ => held_uni.push(tx),
+                        }
                     }
                 }
                 6 => {
@@ -321,6 +356,29 @@ fn run(input: RunInput) -> ScenFuture {
                         let _ = read_all(&mut rx, 5_000).await;
                     }
                 }
+                18 => {
+                    // datagrams with the close right behind them
+                    if r.gen_bool(0.3) {
+                        // (H stalled for a moment - a busy host - so that everything sent now is
+                        // handed to it in one batch when it resumes)
+                        if r.gen_bool(0.7) {
+                            w.fabric.stall(h.addr, w.now_ns() + r.gen_range(1_000_000..40_000_000));
+                        }
+                        for _ in 0..r.gen_range(1..5) {
+                            let mut b = vec![0u8; r.gen_range(0..600)];
+                            r.fill(&mut b[..]);
+                            let _ = c.send_datagram(Bytes::from(b));
+                        }
+                        // let the datagrams leave before the close discards what is still queued
+                        for _ in 0..r.gen_range(0..4) {
+                            tokio::task::yield_now().await;
+                        }
+                        c.close(r.gen_range(0..1000u32).into(), &odd_reason(&mut r));
+                        closed = true;
+                        w.event("op18:datagrams-then-close".to_string());
+                        break;
+                    }
+                }
                 10 => {
                     // more streams than the limit, all held open
                     for _ in 0..(max_bidi + 5) {
@@ -351,14 +409,15 @@ fn run(input: RunInput) -> ScenFuture {
                 break;
             }
             if r.gen_bool(0.02) {
-                c.close(r.gen_range(0..1000u32).into(), b"bye");
+                c.close(r.gen_range(0..1000u32).into(), &odd_reason(&mut r));
                 closed = true;
                 break;
             }
         }
         held.clear();
+        held_uni.clear();
         match r.gen_range(0..3) {
-            0 if !closed => c.close(r.gen_range(0..1000u32).into(), b"bye"),
+            0 if !closed => c.close(r.gen_range(0..1000u32).into(), &odd_reason(&mut r)),
             1 => drop(c),
             _ => {}
         }
